@@ -7,9 +7,14 @@ pub mod c05;
 pub mod c06;
 pub mod c07;
 pub mod c08;
+pub mod c09;
 pub mod c10;
 pub mod c11;
 pub mod c12;
+pub mod c28;
+pub mod c31;
+pub mod c32;
+pub mod c33;
 pub mod c38;
 pub mod dupseq;
 
@@ -22,12 +27,17 @@ pub fn property(id: &str, ctx: &Ctx) -> Option<Property> {
         "C06" => c06::property(ctx),
         "C07" => c07::property(ctx),
         "C08" => c08::property(ctx),
+        "C09" => c09::property(ctx),
         "C10" => c10::property(ctx),
         "C11" => c11::property(ctx),
         "C12" => c12::property(ctx),
+        "C28" => c28::property(ctx),
+        "C31" => c31::property(ctx),
+        "C32" => c32::property(ctx),
+        "C33" => c33::property(ctx),
         "C38" => c38::property(ctx),
         _ => return None,
     })
 }
 
-pub const ALL: &[&str] = &["C01", "C02", "C04", "C05", "C06", "C07", "C08", "C10", "C11", "C12", "C38"];
+pub const ALL: &[&str] = &["C01", "C02", "C04", "C05", "C06", "C07", "C08", "C09", "C10", "C11", "C12", "C28", "C31", "C32", "C33", "C38"];
